@@ -154,6 +154,9 @@ func features(ser string) sqlgen.Features {
 	f.AlterQualified = hx.Allowed("c06.alter_qualified_table")
 	f.MySQL = hx.Allowed("c06.mysql_forms")
 	f.Partitions = hx.Allowed("c06.partitions")
+	f.QuotedOddNames = true
+	f.QuotedDotName = hx.Allowed("c06.quoted_dot_name")
+	f.QuotedDigitsName = hx.Allowed("c06.quoted_digits_name")
 	if ser == "cli" && !hx.Allowed("c06.cli.unimplemented_clauses") {
 		// listed finding: the CLI formatter's own statement printers drop clauses
 		// they do not implement; steer the cli serialiser around exactly those
